@@ -50,6 +50,9 @@ func checkPos(text string, line, col int, src string, exp *posExpect) string {
 	if lines[line-1] != src {
 		return fmt.Sprintf("quoted source line %q is not line %d of the program (%q)", clip(src, 60), line, clip(lines[line-1], 60))
 	}
+	if col < 0 || col > len(src) {
+		return fmt.Sprintf("reported column %d does not lie on the quoted line (%d bytes)", col, len(src))
+	}
 	if exp == nil || !exp.level2 {
 		return ""
 	}
@@ -267,10 +270,97 @@ func c12First(c *Case) {
 	}
 }
 
+// faults whose position is not the start of a token of the failing expression: the end of the input, the depth
+// limit, the second loop variable, a member of an object literal, a string that opens on the last byte. Each is
+// confined to one line (everything before it is complete, nothing but blanks and comments follows).
+func c12Edges(c *Case) {
+	type edge struct {
+		name, text, in string
+		class          string
+		line           int // 1-based line of the fault
+		c0, c1         int // the construct spans these 0-based columns of that line
+	}
+	var edges []edge
+	heads := []string{"", "# helper\n\n", "BEGIN {\n  total = 0\n}\n\n# é comment\n", "function id(a) {\r\n  return a\r\n}\r\n"}
+	tails := []string{"", "\n", " # c\n", "\n\n", "\r\n ", "\n\t\n# end\n", "   "}
+	lasts := []string{"END { print (2 + 3) }", "{ total = 1 + id(2) }", "function f(a, b) { return [a, b] }", "$.a > 1 { print 'é', {k: $[0]} }", "BEGIN { x = \"abc\"; y = 'd' }", "{ if (x) { print 1 } else { print 2 } }"}
+	for hi, h := range heads {
+		nh := strings.Count(h, "\n")
+		for li, last := range lasts {
+			for cut := 1; cut < len(last); cut++ {
+				for ti, t := range tails {
+					c1 := cut - 1
+					var open byte
+					for i := 0; i < cut; i++ {
+						if open == 0 && (last[i] == '"' || last[i] == '\'') {
+							open = last[i]
+						} else if last[i] == open {
+							open = 0
+						}
+					}
+					if open != 0 {
+						c1 += len(strings.SplitN(t, "\n", 2)[0]) // the rest of the line is inside the string that was cut open
+					}
+					edges = append(edges, edge{name: fmt.Sprintf("truncated:%d:%d:%d:%d", hi, li, cut, ti), text: h + last[:cut] + t, class: "syntax", line: nh + 1, c0: 0, c1: c1})
+				}
+			}
+		}
+	}
+	for hi, h := range heads {
+		nh := strings.Count(h, "\n")
+		pre := "function f(n) { return "
+		deep := pre + strings.Repeat("0+(", 12) + "f(n)" + strings.Repeat(")", 12) + " }  BEGIN { f(1) }"
+		edges = append(edges, edge{name: fmt.Sprintf("depth-limit-in-recursion:%d", hi), text: h + deep + "\n", class: "runtime", line: nh + 1, c0: len("function f(n) { "), c1: len(deep) - 1})
+		bangs := "BEGIN { x = " + strings.Repeat("!", 150000) + "1 }"
+		edges = append(edges, edge{name: fmt.Sprintf("depth-limit-in-one-expression:%d", hi), text: h + bangs + "\n# after\n", class: "runtime", line: nh + 1, c0: len("BEGIN { "), c1: len(bangs) - 3})
+		stmts := "BEGIN " + strings.Repeat("{ ", 150000) + "x = 1" + strings.Repeat(" }", 150000)
+		edges = append(edges, edge{name: fmt.Sprintf("depth-limit-in-nested-blocks:%d", hi), text: h + stmts + "\n", class: "runtime", line: nh + 1, c0: len("BEGIN "), c1: len(stmts) - 1})
+		edges = append(edges, edge{name: fmt.Sprintf("second-loop-variable:%d", hi), text: h + "BEGIN {\n  for (item,\n       $pos in [1, 2])\n    print item\n}\n", class: "runtime", line: nh + 3, c0: 7, c1: 10})
+		edges = append(edges, edge{name: fmt.Sprintf("second-loop-variable-one-line:%d", hi), text: h + "BEGIN { for (item, $pos in [1, 2]) print item }", class: "runtime", line: nh + 1, c0: 19, c1: 22})
+		edges = append(edges, edge{name: fmt.Sprintf("object-literal-member:%d", hi), text: h + "BEGIN {\n  cfg = {\n    name: \"x\",\n    fmt: printf\n  }\n}\n", class: "runtime", line: nh + 4, c0: 4, c1: 14})
+		edges = append(edges, edge{name: fmt.Sprintf("object-literal-member-one-line:%d", hi), text: h + "BEGIN { cfg = { name: 1, fmt: printf, z: 2 } }", class: "runtime", line: nh + 1, c0: 25, c1: 35})
+		for qi, q := range []string{"\"", "'"} {
+			for ti, t := range []string{"", "\n", "\n\n", "\r\n"} {
+				edges = append(edges, edge{name: fmt.Sprintf("string-opens-on-the-last-byte:%d:%d:%d", hi, qi, ti), text: h + "BEGIN {\n  x = 1\n  print x, " + q + t, class: "syntax", line: nh + 3, c0: 11, c1: 11 + len(strings.TrimSuffix(t, "\n"))})
+			}
+		}
+	}
+	for _, e := range edges {
+		lib := RunLib(e.text, []InFile{{Name: "in.json", Data: []byte("[1]")}}, nil, RunOpts{Budget: 30000000})
+		c.Count("edge_positions:" + strings.SplitN(e.name, ":", 2)[0])
+		rp := map[string]any{"program": e.text, "line": lib.Line, "col": lib.Col, "srcline": lib.SrcLine, "msg": lib.Msg}
+		if lib.Class != e.class {
+			if e.class == "syntax" && lib.Class == "ok" {
+				c.Count("edge_truncations_that_are_programs")
+				continue
+			}
+			c.Inconclusive("fault-not-reported-as-" + e.class)
+			continue
+		}
+		c.NonTrivial("edge:" + e.name)
+		why := checkPos(e.text, lib.Line, lib.Col, lib.SrcLine, nil)
+		if why == "" && lib.Line != e.line {
+			why = fmt.Sprintf("the fault is on line %d, reported line %d", e.line, lib.Line)
+		}
+		if why == "" && (lib.Col < e.c0 || lib.Col > e.c1) {
+			why = fmt.Sprintf("the offending construct spans columns %d-%d of line %d, reported column %d", e.c0, e.c1, e.line, lib.Col)
+		}
+		if why == "" {
+			c.Held()
+		} else {
+			c.Violation(fmt.Sprintf("%s: %s (message %q, quoted %q)", e.name, why, lib.Msg, clip(lib.SrcLine, 60)), nil, rp)
+		}
+	}
+}
+
 func c12Run(c *Case) {
 	rng := c.Rng
 	if c.Idx == 0 {
 		c12First(c)
+		return
+	}
+	if c.Idx == 1 {
+		c12Edges(c)
 		return
 	}
 	if c.Idx%12 == 7 {
@@ -381,7 +471,7 @@ func c12Run(c *Case) {
 func init() {
 	register(&Prop{
 		ID: "C12", Level: "exploration",
-		Rule: "sampled: a runtime fault (42 kinds x 38 positions x 3 contexts, as in C11) or a syntax splice (22 kinds) planted into a program with filler functions/rules before and after, laid out at random over many lines (blank lines, comment lines and trailing comments with non-ASCII text, CRLF, tabs, statements joined by ';', multi-byte string literals directly before the fault on the same line or on earlier lines); the planted construct is kept on one line and its byte span is known from the renderer. Level 1 for every error: 1 <= Line <= #lines and SrcLine is exactly line Line of the text (lines split on \\n only). Level 2: Line is the fault's line and Col lies inside the span (illegal bytes and misplaced return/break/continue: exactly on the token). 10 faults in the first expression of the program (offset 0) that occur only on the second input element, with 3 continuations: line 1, column inside the expression. A sample is re-run through the binary and the three stderr lines are re-parsed. Non-trivial = >= 3 lines with the fault not on line 1, or a multi-byte character before the fault on its line; distinct by program text.",
+		Rule: "sampled: a runtime fault (42 kinds x 38 positions x 3 contexts, as in C11) or a syntax splice (22 kinds) planted into a program with filler functions/rules before and after, laid out at random over many lines (blank lines, comment lines and trailing comments with non-ASCII text, CRLF, tabs, statements joined by ';', multi-byte string literals directly before the fault on the same line or on earlier lines); the planted construct is kept on one line and its byte span is known from the renderer. Level 1 for every error: 1 <= Line <= #lines and SrcLine is exactly line Line of the text (lines split on \\n only). Level 1 also: 0 <= Col <= length of the quoted line. Level 2: Line is the fault's line and Col lies inside the span (illegal bytes and misplaced return/break/continue: exactly on the token). 10 faults in the first expression of the program (offset 0) that occur only on the second input element, with 3 continuations: line 1, column inside the expression. 4 800 edge positions (every truncation of 6 complete last lines after 4 kinds of complete heads and before 7 kinds of blank / comment tails; the depth limit reached by recursion, by one 150 000-deep expression, by 150 000 nested blocks; an unknown second loop variable; an uncopyable member of an object literal; a string that opens on the last byte): the fault is confined to one line, the reported line is that line and the column lies on its construct. A sample is re-run through the binary and the three stderr lines are re-parsed. Non-trivial = >= 3 lines with the fault not on line 1, or a multi-byte character before the fault on its line; distinct by program text.",
 		NumCases: func(tier string) int {
 			if tier == "thorough" {
 				return 2000000
